@@ -3,13 +3,14 @@ package backends
 import (
 	"bytes"
 	"context"
-	"sync"
 	"encoding/base64"
 	"fmt"
 	"os"
 	"os/exec"
+	"os/signal"
 	"path/filepath"
 	"strconv"
+	"sync"
 	"syscall"
 	"unsafe"
 
@@ -22,10 +23,12 @@ import (
 // C17 — the file store never exposes or keeps a partial node.
 
 type C17Cut struct {
-	N    int    `json:"n"`    // the write is cut after N bytes (RLIMIT_FSIZE)
+	N int `json:"n"` // the write is cut after N bytes (RLIMIT_FSIZE)
 	// Mode: crash (process killed by SIGXFSZ) | ioerr (write returns EFBIG) | ioerr-same (EFBIG in this process; the same
 	// store object then stores again) | ioerr-concurrent (EFBIG in this process while 2-6 goroutines store the same node) |
 	// ctxcancel (the context handed to Store reports cancellation from its N-th query on) |
+	// transient (child process: the first write that reaches byte N fails with a short write and EFBIG, after which the
+	// limit is lifted - a transient I/O error) |
 	// fullfs (the node directory is a tmpfs of N KiB of its own, smaller than the node: the write runs out of space
 	// there, wherever the implementation keeps its temporary files; needs the right to mount, skipped otherwise)
 	Mode string `json:"mode"`
@@ -47,6 +50,23 @@ func c17Child() {
 	}
 	n, _ := strconv.Atoi(os.Getenv("VERIF_C17_N"))
 	lim := syscall.Rlimit{Cur: uint64(n), Max: uint64(n)}
+	if os.Getenv("VERIF_C17_MODE") == "transient" {
+		// a transient condition: the first write that hits the limit fails (short write + EFBIG), and the limit is
+		// lifted as soon as the kernel has signalled it, so that whatever the store does next finds a healthy file system
+		var old syscall.Rlimit
+		if err := syscall.Getrlimit(syscall.RLIMIT_FSIZE, &old); err != nil {
+			fmt.Fprintln(os.Stderr, "getrlimit:", err)
+			os.Exit(90)
+		}
+		lim.Max = old.Max
+		ch := make(chan os.Signal, 4)
+		signal.Notify(ch, syscall.SIGXFSZ)
+		go func() {
+			for range ch {
+				_ = syscall.Setrlimit(syscall.RLIMIT_FSIZE, &old)
+			}
+		}()
+	}
 	if err := syscall.Setrlimit(syscall.RLIMIT_FSIZE, &lim); err != nil {
 		fmt.Fprintln(os.Stderr, "setrlimit:", err)
 		os.Exit(90)
@@ -96,7 +116,7 @@ func genC17(t *rapid.T, tier string) C17Case {
 	c := C17Case{Payload: base64.StdEncoding.EncodeToString(b)}
 	nc := rapid.IntRange(1, 3).Draw(t, "ncuts")
 	for i := 0; i < nc; i++ {
-		cut := C17Cut{Mode: rapid.SampledFrom([]string{"crash", "ioerr", "ioerr-same", "ioerr-concurrent", "ctxcancel"}).Draw(t, "mode")}
+		cut := C17Cut{Mode: rapid.SampledFrom([]string{"crash", "ioerr", "ioerr-same", "ioerr-concurrent", "ctxcancel", "transient"}).Draw(t, "mode")}
 		switch rapid.IntRange(0, 4).Draw(t, "where") {
 		case 0:
 			cut.N = rapid.SampledFrom([]int{0, 1, n - 1, n, n + 1}).Draw(t, "edge")
@@ -126,7 +146,7 @@ func enumC17(tier string, shard, nshards int, yield func(C17Case) bool) (bool, s
 		}
 		p := base64.StdEncoding.EncodeToString(b)
 		for n := 0; n <= l; n++ {
-			for _, mode := range []string{"crash", "ioerr", "ioerr-same"} {
+			for _, mode := range []string{"crash", "ioerr", "ioerr-same", "transient"} {
 				i++
 				if i%nshards != shard {
 					continue
